@@ -15,6 +15,8 @@ fn project() -> VProject {
     VProject { codepage: 1252, modules: vec![
         VModule { name: "Module1".into(), stream_name: "Module1".into(), source: b"Sub A()\r\n  MsgBox \"hi\"\r\nEnd Sub\r\n".to_vec(), text_offset: 0, mode: 0, class_module: false, read_only: false, private: false },
         VModule { name: "Big".into(), stream_name: "Big".into(), source: (0..9000u32).map(|i| b"Rem line of a long module\r\n"[(i % 27) as usize]).collect(), text_offset: 7, mode: 0, class_module: true, read_only: false, private: false },
+        // a module that does not compress: its stream is larger than 4096 bytes and lives in regular sectors, next to the workbook's
+        VModule { name: "Blob".into(), stream_name: "Blob".into(), source: { let mut x = 0x1234_5678u32; (0..6000).map(|_| { x ^= x << 13; x ^= x >> 17; x ^= x << 5; 0x21 + (x % 90) as u8 }).collect() }, text_offset: 0, mode: 2, class_module: false, read_only: false, private: false },
     ], refs: vec![VRef { name: "stdole".into(), kind: RefKind::Registered }], compat_version: false, descriptive: false }
 }
 
@@ -43,7 +45,44 @@ fn observe(bytes: &[u8]) -> Result<String, String> {
     Ok(format!("{} | {:?} | {:?}", hash_of(&range_digest(&r)), mods, v.get_references().iter().map(|r| r.name.clone()).collect::<Vec<_>>()))
 }
 
+/// Real workbook streams in fresh containers: the Workbook / Book stream of every xls fixture of the repository is taken out
+/// (through the reader under test) and wrapped into new compound files of 24 layouts by the independent writer; each must read as
+/// the same sheets and cells as the fixture itself ("two containers holding the same streams read as the same workbook").
+fn corpus_recontainer(rep: &Report) {
+    use rayon::prelude::*;
+    let files = crate::props::corpus::fixtures(&["xls", "xla"]);
+    let wrapped = std::sync::atomic::AtomicU64::new(0);
+    let all = |bytes: &[u8]| -> Result<String, String> {
+        let mut wb: Xls<_> = Xls::new(Cursor::new(bytes.to_vec())).map_err(|e| format!("open: {e:?}"))?;
+        let mut out = String::new();
+        for n in wb.sheet_names() { out.push_str(&format!("{n:?}={:?};", wb.worksheet_range(&n).map(|r| range_digest(&r)).map_err(|e| format!("{e:?}").chars().take(40).collect::<String>()))); }
+        Ok(out)
+    };
+    files.par_iter().for_each(|(fname, bytes)| {
+        crate::engine::crumb::set_case(&format!("C13 fixture {fname}"));
+        let Ok(Ok(orig)) = guarded(|| all(bytes)) else { return };
+        let Ok(Ok(streams)) = guarded(|| calamine::verif::cfb::get_streams(bytes, &["Workbook", "Book"])) else { return };
+        let (name, stream) = match (&streams[0], &streams[1]) { (Ok(s), _) => ("Workbook", s.clone()), (_, Ok(s)) => ("Book", s.clone()), _ => return };
+        for v4 in [false, true] { for order in [cfb::Order::Sequential, cfb::Order::Reversed, cfb::Order::Interleaved, cfb::Order::Perm(3)] { for mini_order in [cfb::Order::Sequential, cfb::Order::Reversed, cfb::Order::Perm(4)] {
+            let lay = cfb::Layout { v4, order, mini_order, unused_dir_entries: if v4 { 1 } else { 0 }, free_sectors: 1, ..Default::default() };
+            let file = cfb::simple(&[(name, stream.clone())], &lay);
+            rep.eval(1);
+            wrapped.fetch_add(1, std::sync::atomic::Ordering::Relaxed);
+            let got = guarded(|| all(&file));
+            rep.case(hash_of(&(fname, format!("{lay:?}"))), true, hash_of(&format!("{got:?}")));
+            if !matches!(&got, Ok(Ok(g)) if *g == orig) {
+                rep.fail("corpus/recontainered-workbook-differs", &format!("{fname}: its {name} stream ({} bytes) in a fresh container ({lay:?}) reads {}, the fixture reads {}", stream.len(), format!("{got:?}").chars().take(200).collect::<String>(), orig.chars().take(200).collect::<String>()), || Replay { json: json!({"fixture": fname, "layout": format!("{lay:?}")}), files: vec![("xls".into(), file.clone())] });
+                return;
+            }
+        } } }
+        crate::engine::crumb::clear();
+    });
+    rep.extra("fixture_workbook_streams_recontainered", json!(files.len()));
+    rep.extra("fixture_containers_written", json!(wrapped.load(std::sync::atomic::Ordering::Relaxed)));
+}
+
 pub fn check(rep: &Report, stats: &Mutex<Stats>) {
+    corpus_recontainer(rep);
     let t = crate::thorough(&rep.tier);
     // reference observation: default layout, both workbook sizes
     let mut reference: Vec<Option<String>> = vec![None, None];
